@@ -83,10 +83,10 @@ theorem handed_on_content (s : Strategy) (a : Archive) :
 
 /-- The stored form that replaces the block's: a file entry of an encrypted block comes out under
     the block's codec, cipher and mode — never in the clear. -/
-theorem unsolid_keeps_cipher (h : Bytes) (e : LEntry) (he : h.getD 3 0 ≠ 0) (hk : e.kind = 0) :
+theorem unsolid_keeps_cipher (h : Bytes) (e : LEntry) (he : h.getD 3 0 ≠ 0) (hk : e.kind = 0 ∨ e.kind = 2) :
     (standalone h e).data.take 3 = [h.getD 2 0 + 48, h.getD 3 0 + 48, h.getD 4 0 + 48] := by
   have : h[3]?.getD 0 ≠ 0 := by simpa [List.getD] using he
-  simp [standalone, this, hk, List.getD]
+  rcases hk with hk | hk <;> simp [standalone, this, hk, List.getD]
 
 /-- `--keep-solid`: blocks, header options and block-level unknown chunks are preserved. -/
 theorem keep_solid_structure (f : LEntry → Option LEntry) (a : Archive) :
@@ -145,10 +145,13 @@ example : entriesOf (transform .unsolid (chmodF (fun n => n == [97]) (.minus 2 2
   = [{ name := [97], kind := 0, data := [], mode := some 0o644 }, { name := [98], kind := 0, data := [], mode := some 0o664 }] := by
   decide +kernel
 
--- non-vacuity of the stored-form clause: a file of an AES/CTR block comes out as AES/CTR, its content digest unchanged
+-- non-vacuity of the stored-form clause: a file and a symbolic link of an AES/CTR block come out as AES/CTR, their content
+-- digests unchanged; a directory has nothing to hide and stays as it is
 example : entriesOf (transform .unsolid (chmodF (fun _ => false) (.num 0))
-    [.solid [0, 13, 4, 1, 1] [] [{ name := [98], kind := 0, data := [48, 48, 48, 7, 7] }, { name := [99], kind := 2, data := [48, 48, 48, 9] }]])
-  = [{ name := [98], kind := 0, data := [52, 49, 49, 7, 7] }, { name := [99], kind := 2, data := [48, 48, 48, 9] }] := by
+    [.solid [0, 13, 4, 1, 1] [] [{ name := [98], kind := 0, data := [48, 48, 48, 7, 7] }, { name := [99], kind := 2, data := [48, 48, 48, 9] },
+      { name := [100], kind := 1, data := [48, 48, 48] }]])
+  = [{ name := [98], kind := 0, data := [52, 49, 49, 7, 7] }, { name := [99], kind := 2, data := [52, 49, 49, 9] },
+     { name := [100], kind := 1, data := [48, 48, 48] }] := by
   decide +kernel
 
 end Pna.C10
